@@ -4,8 +4,10 @@ Copyright © 2023 NAME HERE <EMAIL ADDRESS>
 package cmd
 
 import (
+	"errors"
 	"fmt"
 	"os"
+	"syscall"
 
 	"github.com/JunNishimura/Goit/internal/file"
 	"github.com/JunNishimura/Goit/internal/object"
@@ -48,7 +50,8 @@ var statusCmd = &cobra.Command{
 		for _, entry := range client.Idx.Entries {
 			filePath := string(entry.Path)
 			info, err := os.Stat(filePath)
-			if os.IsNotExist(err) {
+			if os.IsNotExist(err) || errors.Is(err, syscall.ENOTDIR) {
+				// gone; ENOTDIR: a directory on the way to it has been replaced by a file
 				deletedFiles = append(deletedFiles, filePath)
 				continue
 			}
